@@ -381,24 +381,32 @@ func recognise(w *world, pa, pb *parsedOp, f failure) string {
 		if strings.Contains(f.msg, "assigning invalid type") {
 			for _, p := range pick(f.side) {
 				if w.hasRepeatedEnumArg(p) {
-					return findEnumList
+					if pbt.IsKnown(findEnumList) {
+						return findEnumList
+					}
 				}
 			}
 		}
 		if strings.Contains(f.msg, "nil pointer dereference") {
 			for _, p := range pick(f.side) {
 				if w.resolverUnder(p, func(a ancestry) bool { return a.abstract }) {
-					return findResolverInUnion
+					if pbt.IsKnown(findResolverInUnion) {
+						return findResolverInUnion
+					}
 				}
 			}
 		}
 	case "call-dropped":
 		for _, p := range pick(f.side) {
 			if w.resolverUnder(p, func(a ancestry) bool { return a.abstract }) {
-				return findResolverInUnion
+				if pbt.IsKnown(findResolverInUnion) {
+					return findResolverInUnion
+				}
 			}
 			if w.resolverUnder(p, func(a ancestry) bool { return a.sinceResolver >= 1 }) {
-				return findResolverInResolverResult
+				if pbt.IsKnown(findResolverInResolverResult) {
+					return findResolverInResolverResult
+				}
 			}
 		}
 	case "shape":
@@ -409,14 +417,18 @@ func recognise(w *world, pa, pb *parsedOp, f failure) string {
 		}
 		for _, p := range pick(f.side) {
 			if f.a.walk.nViol == f.a.walk.nKeyViol && explainedAllObjects(f.a.walk.diffs, w.typenameMultiSites(p)) {
-				return findTypenameKeys
+				if pbt.IsKnown(findTypenameKeys) {
+					return findTypenameKeys
+				}
 			}
 		}
 	case "fetch-failed":
 		if strings.Contains(f.msg, "expected array or object, got null") {
 			for _, p := range pick(f.side) {
 				if w.resolverUnderNullable(p) {
-					return findNullParent
+					if pbt.IsKnown(findNullParent) {
+						return findNullParent
+					}
 				}
 			}
 		}
@@ -426,7 +438,9 @@ func recognise(w *world, pa, pb *parsedOp, f failure) string {
 			strings.Contains(f.msg, "expected array or object, got") {
 			for _, p := range pick(f.side) {
 				if w.resolverUnder(p, func(a ancestry) bool { return a.nestedList }) {
-					return findNestedListParent
+					if pbt.IsKnown(findNestedListParent) {
+						return findNestedListParent
+					}
 				}
 			}
 		}
@@ -458,11 +472,15 @@ func recognise(w *world, pa, pb *parsedOp, f failure) string {
 			// (a) nullable field: the lost key itself is rendered as null while the field has a
 			// value under its other response key(s)
 			if u == site.path+"/"+site.name && strings.HasSuffix(null.path, "."+site.alias) {
-				return findAliasDrop
+				if pbt.IsKnown(findAliasDrop) {
+					return findAliasDrop
+				}
 			}
 			// (b) non-null field: the lost key nulls the resolver result or an ancestor of it
 			if (site.path == u || strings.HasPrefix(site.path, u+"/") || u == "") && errorMentionsKey(out.resp, site.alias) {
-				return findAliasDrop
+				if pbt.IsKnown(findAliasDrop) {
+					return findAliasDrop
+				}
 			}
 		}
 	}
